@@ -56,6 +56,12 @@ CLAIMS = {
          "probabilities real in (0,1], f32 sums in (0,1], targets in range without duplicates, distribution parameters in their documented domains), "
          "C12_nan_rejected, C12_framework_new (same judgement; a framework from accepted machines and fractions in [0,1] never fails). The model's validators are "
          "compared with Machine::validate, Framework::new, Machine::from_str and Machine::new on adversarial machines.", "DESIGN.md section 4, C12"),
+
+ "C13": ("PARTIAL (the ten rand_distr samplers are third-party code: their result is universally quantified, their termination is not proved). Theorems C13_range "
+         "(for every raw sampler value incl. NaN/inf and every start/max, Dist::sample is non-NaN, non-negative and <= max when max > 0 -- Flocq), C13_consumers "
+         "(timeouts/durations <= 24 h, limits and counter values within u64), C13_unwrap (constructors cannot fail on validated distributions), C13_uniform_pre, "
+         "C13_uniform_progress_partial (the Uniform rejection loop accepts the draw 0). Promptness is explored in child processes under scripted RNG prefixes; two genuine "
+         "sampler defects found there (Binomial hang F11, Binomial panic F12) are recorded known findings.", "DESIGN.md section 4, C13"),
 }
 
 NOT_YET = "check not built yet (in progress; planned per DESIGN.md section 7)"
